@@ -9,6 +9,7 @@ runs of the same code paths.
 """
 import copy
 import itertools
+import json
 import os
 
 import jsonschema
@@ -45,13 +46,21 @@ def schema_for(d, var):
     return {"definitions": {"a": var["T"]}, "items": item}
 
 
-def make_validator(d, k):
+def split(k):
+    """A consumer is a variant index, or (variant index, "alias"): its resolver is constructed with the *store
+    object of the first consumer's resolver* (documented to be copied, never adopted)."""
+    return (k[0], True) if isinstance(k, (tuple, list)) else (k, False)
+
+
+def make_validator(d, k, store_from=None):
+    k, alias = split(k)
     var = VARIANTS[k]
     S = schema_for(d, var)
     fc = FormatChecker(formats=[])
     fc.checks("f")(lambda inst, f=var["fmt"]: (not isinstance(inst, str)) or f(inst))
     cls = _e1.CLS[d]
-    r = RefResolver.from_schema(S, id_of=cls.ID_OF, store={URL: copy.deepcopy(var["R"])},
+    store = store_from if (alias and store_from is not None) else {URL: copy.deepcopy(var["R"])}
+    r = RefResolver.from_schema(S, id_of=cls.ID_OF, store=store,
                                 handlers={"http": lambda uri, doc=var["Hd"]: copy.deepcopy(doc)})
     return cls(S, resolver=r, format_checker=fc), r
 
@@ -63,21 +72,25 @@ def ident(e):
 _expected = {}
 
 
-def expected(d, k, short=False):
-    """Errors of the reference-free equivalent (references written out by the designation model)."""
+def expected(d, k, short=False, first=None):
+    """Errors of the reference-free equivalent (references written out by the designation model).  A consumer
+    whose resolver was given the first consumer's store sees that consumer's store document under URL."""
     if short:
         n = 2 if short is True else short
-        return [e for e in expected(d, k) if e[2][0] < n]      # the errors of the first n elements
-    if (d, k) not in _expected:
+        return [e for e in expected(d, k, False, first) if e[2][0] < n]      # the errors of the first n elements
+    k, alias = split(k)
+    rdoc = VARIANTS[split(first)[0]]["R"] if (alias and first is not None) else VARIANTS[k]["R"]
+    key = (d, k, json.dumps(rdoc))
+    if key not in _expected:
         var = VARIANTS[k]
         S = schema_for(d, var)
-        w = refmodel.World(d, S, {URL: var["R"], HURL: var["Hd"]})
+        w = refmodel.World(d, S, {URL: rdoc, HURL: var["Hd"]})
         I = refmodel.inline(w, S)
         fc = FormatChecker(formats=[])
         fc.checks("f")(lambda inst, f=var["fmt"]: (not isinstance(inst, str)) or f(inst))
         errs = [(e.validator, e.message, tuple(e.absolute_path)) for e in _e1.CLS[d](I, format_checker=fc).iter_errors(var["inst"])]
-        _expected[(d, k)] = errs
-    return _expected[(d, k)]
+        _expected[key] = errs
+    return _expected[key]
 
 
 def strip(ids):
@@ -116,8 +129,10 @@ A_LEN = {"n": 4}
 
 
 def run_interleaving(d, ks, progs, order):
-    vals = [make_validator(d, k) for k in ks]
-    its = [v.iter_errors(copy.deepcopy(VARIANTS[k]["inst"][:A_LEN["n"]])) for (v, r), k in zip(vals, ks)]
+    vals = []
+    for k in ks:
+        vals.append(make_validator(d, k, vals[0][1].store if vals else None))
+    its = [v.iter_errors(copy.deepcopy(VARIANTS[split(k)[0]]["inst"][:A_LEN["n"]])) for (v, r), k in zip(vals, ks)]
     got = [[] for _ in ks]
     taken = [0] * len(ks)
     state = ["run"] * len(ks)
@@ -139,11 +154,12 @@ def run_interleaving(d, ks, progs, order):
             state[i] = "raised"
     problems = []
     for i, k in enumerate(ks):
-        exp = expected(d, k, A_LEN["n"])
+        exp = expected(d, k, A_LEN["n"], ks[0])
         kind, n = progs[i]
         want = exp if kind == "exhaust" else exp[:n]
         if strip(got[i]) != want:
-            problems.append({"validator": i, "variant": k, "got": strip(got[i]), "expected": want})
+            problems.append({"validator": i, "variant": list(k) if isinstance(k, tuple) else k,
+                             "got": strip(got[i]), "expected": want})
         r = vals[i][1]
         if r.resolution_scope != "" or len(getattr(r, "_scopes_stack", [""])) != 1:
             problems.append({"validator": i, "scope_after": r.resolution_scope})
@@ -156,10 +172,11 @@ def steps_of(prog):
 
 
 def part_a_configs(d, tier):
-    combos = [(0, 1), (1, 2), (0, 2), (0, 1, 2)] if tier == "quick" else \
-        [(0, 1), (1, 0), (1, 2), (0, 2), (0, 0), (0, 1, 2), (2, 1, 0)]
+    combos = [(0, 1), (1, 2), (0, 2), (0, 1, 2), (0, (1, "alias")), (2, (0, "alias"))] if tier == "quick" else \
+        [(0, 1), (1, 0), (1, 2), (0, 2), (0, 0), (0, 1, 2), (2, 1, 0), (0, (1, "alias")), (2, (0, "alias")),
+         (1, (1, "alias")), (0, (2, "alias"), 1)]
     for ks in combos:
-        plist = [programs(len(expected(d, k, A_LEN["n"]))) for k in ks]
+        plist = [programs(len(expected(d, k, A_LEN["n"], ks[0]))) for k in ks]
         for progs in itertools.product(*plist):
             if len(ks) == 3 and tier == "quick" and sum(steps_of(p) for p in progs) > 8:
                 continue
@@ -311,11 +328,14 @@ def run_unit(unit, ctx):
             key = "agree" if not probs else "DISAGREE"
             outcomes[key] = outcomes.get(key, 0) + 1
             if probs:
-                viol.append({"signature": "C18|interleaving|%d-iterators" % len(ks), "size": len(order),
-                             "case": {"part": "A", "draft": d, "variants": list(ks), "programs": [list(p) for p in progs],
+                viol.append({"signature": "C18|interleaving|%d-iterators%s" % (
+                len(ks), "|store-object-passed-on" if any(isinstance(k, tuple) for k in ks) else ""), "size": len(order),
+                             "case": {"part": "A", "draft": d, "variants": [list(k) if isinstance(k, tuple) else k for k in ks],
+                                      "programs": [list(p) for p in progs],
                                       "order": list(order), "elements": A_LEN["n"]}, "detail": probs[:2]})
             if n == 3:
-                samples.append({"part": "A", "draft": d, "variants": list(ks), "programs": [list(p) for p in progs],
+                samples.append({"part": "A", "draft": d, "variants": [list(k) if isinstance(k, tuple) else k for k in ks],
+                                "programs": [list(p) for p in progs],
                                 "order": list(order)})
         return {"evaluations": n, "nontrivial": nt, "violations": viol, "samples": samples, "outcomes": outcomes,
                 "counters": {"states": n, "transitions": steps, "traces_validated_against_impl": n,
@@ -360,7 +380,7 @@ def replay(case, ctx):
         results, points = sc.run()
         bad = cs_check(drafts)(results)
         return {"reproduced": bad is not None, "problem": bad}
-    d, ks = case["draft"], tuple(case["variants"])
+    d, ks = case["draft"], tuple(tuple(k) if isinstance(k, list) else k for k in case["variants"])
     if case["part"] == "A":
         A_LEN["n"] = case.get("elements", A_LEN["n"])
         probs = run_interleaving(d, ks, [tuple(p) for p in case["programs"]], case["order"])
